@@ -190,6 +190,11 @@ func (p *parser) scan() (tkn token.Token, literal string, idx file.Idx) { //noli
 				// Keywords are longer than 1 character, avoid lookup otherwise
 				var strict bool
 				tkn, strict = token.IsKeyword(literal)
+				if strings.ContainsRune(p.str[int(idx)-p.base:p.chrOffset], '\\') &&
+					(tkn != 0 && !strict || literal == "true" || literal == "false" || literal == "null") {
+					// An escape cannot spell a keyword or a literal; the identifier so named is reserved.
+					return token.KEYWORD, literal, idx
+				}
 
 				switch tkn {
 				case 0: // Not a keyword
